@@ -267,7 +267,8 @@ def rule_b(ctx, side):
             mins = {norm(c): c for c in ast.walk(f.node) if isinstance(c, ast.Call) and norm(c.func) == "scipy.optimize.minimize"}
         ctx.need(len(mins) == 1 and len(list(mins.values())[0].args) >= 2, f"{f.qname}: scipy.optimize.minimize call not found")
         call = list(mins.values())[0]
-        ctx.ob(R, f.qname, "minimize(objective, x0 = current balance)", norm(call.args[0]) == o.name and norm(expand(f.node, call.args[1])) == sp["x0"], norm(call.args[1]), call)
+        ctx.ob(R, f.qname, "minimize(objective, x0 = current balance)", norm(call.args[0]) == o.name and norm(expand(f.node, call.args[1])) == sp["x0"], norm(call.args[1]), call,
+               evidence=norm(call.args[0]) == o.name and "self" not in {x.id for x in ast.walk(expand(f.node, call.args[1])) if isinstance(x, ast.Name)})  # a start value that does not read the object at all
         # the objective, with its once-bound locals replaced by their definitions: np.sum((APPLIED - dst) ** 2)
         orets = [r.value for r in ast.walk(o) if isinstance(r, ast.Return) and r.value is not None]
         ctx.need(len(orets) == 1, f"{f.qname}: objective has no single return")
@@ -309,8 +310,19 @@ def rule_b(ctx, side):
             return frozenset(out)
         IN, _ = C.solve_forward(g, frozenset(), tr, lambda a_, b_: a_ & b_, exc_transfer=lambda nd, si, so: si)
         at_exit = IN.get(g.exit.id, frozenset())
+        # positive evidence of a missing store: a return that NO path reaches with the attribute written (may-analysis; a call of a method of
+        # the object counts as a possible store of everything)
+        def tr_may(nd, st_in):
+            out = set(tr(nd, st_in))
+            if nd.stmt is not None and any(isinstance(c_, ast.Call) and isinstance(c_.func, ast.Attribute) and isinstance(c_.func.value, ast.Name) and c_.func.value.id == "self"
+                                           for c_ in ast.walk(nd.stmt) if nd.kind in ("stmt", "return", "if")):
+                out |= set(sp["store"])
+            return frozenset(out)
+        IN_may, _ = C.solve_forward(g, frozenset(), tr_may, lambda a_, b_: a_ | b_, exc_transfer=lambda nd, si, so: si)
+        bare = [nd for nd in g.nodes if nd.kind == "return" and not (set(sp["store"]) <= set(IN_may.get(nd.id, frozenset())))]
         ctx.ob(R, f.qname, "every return of find_balance has stored the fitted balance", set(sp["store"]) <= set(at_exit),
-               f"attributes written on every path to a return: {sorted(at_exit)}; needed {sorted(sp['store'])} -- a re-fit that takes the early exit keeps the previous balance", f.node)
+               f"attributes written on every path to a return: {sorted(at_exit)}; needed {sorted(sp['store'])} -- a re-fit that takes the early exit keeps the previous balance"
+               + (f"; `{bare[0].text()[:50]}` is reached without any store" if bare else ""), f.node, evidence=bool(bare))
     ctx.floor(R, 3)
 
 
